@@ -156,6 +156,7 @@ SBuf::rawAppendFinish(const char *start, size_type actualSize)
 char *
 SBuf::rawSpace(size_type minSpace)
 {
+    Must(minSpace <= maxSize); // also keeps the subtraction below from wrapping
     Must(length() <= maxSize - minSpace);
     debugs(24, 7, "reserving " << minSpace << " for " << id);
     ++stats.rawAccess;
@@ -532,7 +533,8 @@ SBuf::chop(size_type pos, size_type n)
     if (pos == npos || pos > length())
         pos = length();
 
-    if (n == npos || (pos+n) > length())
+    // pos <= length() here; comparing n with what is left cannot wrap (pos+n could)
+    if (n == npos || n > length() - pos)
         n = length() - pos;
 
     // if there will be nothing left, reset the buffer while we can
